@@ -156,6 +156,91 @@ def pair_scenario(setup, a, b, schedule):
     return {"steps": steps}
 
 
+# ------------------------------------------- file-system granularity ----
+
+FS_FLAGS = [(0x100, "FsCreate"), (0x200, "FsDelete"), (0x2, "FsModify"), (0x40, "FsMovedFrom"), (0x80, "FsMovedTo"),
+            (0x8, "FsCloseWrite"), (0x4, "FsAttrib")]
+IN_ISDIR = 0x40000000
+
+
+def fs_case(rnd, n_cmds):
+    """commands on a real Router under the real scheduler (harness/c12fs_test.go);
+    some steps run two commands concurrently.  No target fails its probe (real time)."""
+    names = [b"web", b"api", b"admin"]
+    hosts = {b"web": b"a.example.com", b"api": b"b.example.com", b"admin": b"x.io"}
+
+    def one():
+        n = rnd.choice(names)
+        k = rnd.choice(["deploy", "deploy", "deploy", "pause", "stop", "resume", "resume", "remove", "rollout_deploy",
+                        "rollout_set", "rollout_stop"])
+        if k == "deploy":
+            return dep(n, hosts[n], rnd.sample(m4.GOOD_TARGETS, rnd.choice([1, 2])), strip=rnd.random() < 0.5)
+        if k == "pause":
+            return {"op": "pause", "name": n, "fail_after": 2 * SEC}
+        if k == "stop":
+            return {"op": "stop", "name": n, "msg": rnd.choice(m4.MESSAGES)}
+        if k == "rollout_deploy":
+            return {"op": "rollout_deploy", "name": n, "targets": [{"name": rnd.choice(m4.GOOD_TARGETS), "healthy": True}]}
+        if k == "rollout_set":
+            return {"op": "rollout_set", "name": n, "pct": rnd.choice([0, 100]), "allow": [b"alice"]}
+        return {"op": k, "name": n}
+    cmds = [dep(b"web", hosts[b"web"], [b"ta:80"]), dep(b"api", hosts[b"api"], [b"tb:80"])]
+    steps, k = [], 0
+    groups = [[c] for c in cmds]
+    while sum(len(g) for g in groups) < n_cmds:
+        groups.append([one(), one()] if rnd.random() < 0.25 else [one()])
+    for g in groups:
+        sts = []
+        for c in g:
+            sts.append(cmd_step(c, "c%d" % k))
+            k += 1
+        steps.append(sts[0] if len(sts) == 1 else {"par": sts})
+    return {"steps": steps}, jsonable(groups)
+
+
+def fs_term(out):
+    """Coq term list (fsk * fsname) of the inotify events of one case (one term per flag set)."""
+    items, shown = [], []
+    for mask, name in out["fs_events"]:
+        if mask & IN_ISDIR:
+            continue
+        nm = "FsLive" if name == out["state_name"] else "FsTemp"
+        ks = [k for bit, k in FS_FLAGS if mask & bit] or ["FsOther"]
+        for k in ks:
+            items.append("(%s, %s)" % (k, nm))
+            shown.append([k[2:], name])
+    return "[" + "; ".join(items) + "]", shown
+
+
+def fs_check(work, terms, shard=10):
+    jobs = [(s, terms[s:s + shard]) for s in range(0, len(terms), shard)]
+
+    def ev(job):
+        s, ts = job
+        body = "Definition cases : list (list (fsk * fsname)) := [\n%s].\n" % ";\n".join(ts)
+        body += ("Definition R := Eval vm_compute in map (fun evs => (c12_fs_failures evs, count_fs FsMovedTo FsLive evs, "
+                 "count_fs FsCreate FsTemp evs)) cases.\n")
+        txt = coq_eval(work, "C12fs_%d" % s, IMPORTS, body, "R")
+        return s, ast.literal_eval(txt.strip().replace(";", ","))
+    res = [None] * len(terms)
+    with ThreadPoolExecutor(max_workers=16) as ex:
+        for s, vs in ex.map(ev, jobs):
+            if len(vs) != len(terms[s:s + shard]):
+                raise RuntimeError("fs verdict count mismatch")
+            res[s:s + len(vs)] = vs
+    return res
+
+
+def run_fs(work, cases):
+    write_jsonl(work.path("fs.jsonl"), cases)
+    rc, gout = go_test(work, FILES + ["c12fs_test.go"], "^TestVerifC12FS$",
+                       {"VERIF_IN": work.path("fs.jsonl"), "VERIF_OUT": work.path("fsout.jsonl")}, synctest=True)
+    if rc != 0 or not os.path.exists(work.path("fsout.jsonl")):
+        return False, gout, []
+    outs = read_jsonl(work.path("fsout.jsonl"))
+    return len(outs) == len(cases), gout, outs
+
+
 # ------------------------------------------------------- observations ----
 
 def trace_items(events):
@@ -296,7 +381,20 @@ def run(tier, seed):
                 scen.append(pair_scenario(setup, a, b, s))
                 meta.append({"kind": "pair-enumerated", "setup": jsonable(setup), "A": jsonable(a), "B": jsonable(b), "schedule": s})
 
+        # (4) file-system granularity: inotify on the state directory, real scheduler
+        fs_cases, fs_meta = [], []
+        for _ in range(12 if quick else 60):
+            c, g = fs_case(rnd, rnd.randint(15, 30))
+            fs_cases.append(c)
+            fs_meta.append(g)
+
         harness_ok, gout, outs = m5.run_scenarios(work, scen, FILES)
+        fs_ok, fs_gout, fs_outs = run_fs(work, fs_cases)
+        fs_verdicts, fs_shown = [], []
+        if fs_ok and ok:
+            fts = [fs_term(o) for o in fs_outs]
+            fs_shown = [x[1] for x in fts]
+            fs_verdicts = fs_check(work, [x[0] for x in fts])
         verdicts, variant, n_crash, n_inside = [], "Repaired", 0, 0
         dist_point, dist_file, dist_cmd, unsettled, stuck = {}, {}, {}, 0, 0
         distinct = set()
@@ -333,6 +431,21 @@ def run(tier, seed):
         for m in meta:
             kinds[m["kind"]] = kinds.get(m["kind"], 0) + 1
         mon = [(i, v["monitor"]) for i, v in enumerate(verdicts) if v["monitor"]]
+        fs_mon = [(i, v[0]) for i, v in enumerate(fs_verdicts) if v[0]]
+        fs_stale = [i for i, o in enumerate(fs_outs) if fs_ok and (not isinstance(o["final_state_file"], list) or
+                    not isinstance(o["final_cfg"], list) or canon_cfg(o["final_state_file"]) != canon_cfg(o["final_cfg"]))]
+        fs_repaired = any(o["hooks"].get("snap-rename", 0) for o in fs_outs)
+        fs_differ = [i for i, (o, v) in enumerate(zip(fs_outs, fs_verdicts))
+                     if o["overflow"] or (o["hooks"].get("snap-collect", 0) > 0 and v[1] + v[2] == 0 and not v[0]) or
+                     (fs_repaired and (v[1] != o["hooks"].get("snap-rename", 0) or v[2] != o["hooks"].get("snap-create", 0)))]
+        fs_cmds, fs_kinds, fs_par = 0, {}, 0
+        for o, c in zip(fs_outs, fs_cases):
+            fs_par += sum(1 for st in c["steps"] if "par" in st)
+            for r in o["results"]:
+                if "result" in r:
+                    fs_cmds += 1
+            for k, _ in fs_shown[fs_outs.index(o)] if fs_shown else []:
+                fs_kinds[k] = fs_kinds.get(k, 0) + 1
         rejected = [(i, v["reject"]) for i, v in enumerate(verdicts) if v["reject"] is not None]
         differ = [(i, v["view"]) for i, v in enumerate(verdicts) if v["view"]]
         res.coverage.update({
@@ -350,6 +463,15 @@ def run(tier, seed):
             "samples": [meta[0], meta[len(meta) // 2]] if meta else [],
             "correspondence": {"scenarios": len(scen), "monitor_failures": len(mon), "traces_rejected_by_view": len(rejected),
                                "view_observation_mismatches": len(differ)},
+            "file_system_granularity": {
+                "rule": "inotify watch (IN_CREATE|IN_DELETE|IN_MODIFY|IN_MOVED_FROM|IN_MOVED_TO|IN_CLOSE_WRITE|IN_ATTRIB) on the state "
+                        "directory while random commands, a quarter of the steps two at once, run on a real Router under the real "
+                        "scheduler; monitor c12_fs_ok on the event list alone; the numbers of renames onto the state file and of "
+                        "temporary files created are compared with the snap-rename / snap-create hook events",
+                "cases": len(fs_cases), "commands": fs_cmds, "steps_with_two_concurrent_commands": fs_par,
+                "directory_events_by_kind": fs_kinds, "monitor_failures": len(fs_mon), "stale_at_end": len(fs_stale),
+                "disagreements_with_hooks": len(fs_differ),
+                "sample": fs_shown[0][:40] if fs_shown else []},
         })
         res.assumptions = [
             "process-kill semantics only: what the kernel holds survives (no power loss, no fsync ordering); crash points are the hook "
@@ -378,6 +500,35 @@ def run(tier, seed):
                                             "by_class": {CLASSES[c]: sum(1 for _, fs in mon for _, cc in fs if cc == c) for c in CLASSES
                                                          if any(cc == c for _, fs in mon for _, cc in fs)}}
             res.violation("monitor-%d" % i, p)
+        elif fs_mon or fs_stale:
+            i = fs_mon[0][0] if fs_mon else fs_stale[0]
+            o = fs_outs[i]
+            p = {"property": "C12", "seed": seed, "tier": tier, "case_index": i, "commands": fs_meta[i], "case": fs_cases[i],
+                 "what": "monitor false on an implementation observation (state directory events, corr.C12corr.c12_fs_ok)" if fs_mon
+                         else "stale: every command has returned and the state file is not the configuration in force (real scheduler)",
+                 "state_file_name": o["state_name"], "directory_events": fs_shown[i]}
+            if fs_mon:
+                bad = fs_mon[0][1]
+                p["offending_events"] = [{"index": n, "event": fs_shown[i][n], "preceding": fs_shown[i][max(0, n - 6):n]} for n in bad[:3]]
+                p["why"] = ("after its first appearance the state file may only be replaced by a rename onto it (IN_MOVED_TO); a delete or "
+                            "move away leaves a window without a state file, a write in place a window with a partial one: a process "
+                            "killed there restarts with no services")
+                p["monitor_failures_in_run"] = {"cases": len(fs_mon), "events": sum(len(b) for _, b in fs_mon)}
+            else:
+                p["final_state_file"] = summary(o["final_state_file"])
+                p["configuration_in_force"] = summary(o["final_cfg"])
+            res.violation("fs-monitor-%d" % i, p)
+        elif not fs_ok or fs_differ:
+            p = {"property": "C12", "seed": seed, "tier": tier,
+                 "what": "file-system harness (harness/c12fs_test.go) does not build/run against the tree" if not fs_ok else
+                         "state directory events and hook events disagree (renames onto the state file vs snap-rename, temporary files "
+                         "created vs snap-create), inotify queue overflow, or no directory event at all"}
+            if not fs_ok:
+                p["harness_output"] = fs_gout[-3000:]
+            else:
+                i = fs_differ[0]
+                p.update({"case_index": i, "hooks": fs_outs[i]["hooks"], "directory_events": fs_shown[i][:200]})
+            res.violation("broken", p, no_input=True)
         elif rejected or differ or not harness_ok or not proofs_ok or stuck or unsettled:
             what = ("the snapshot view (model/M5snap.v, %s) rejects an implementation trace" % variant if rejected else
                     "view and observation differ at a crash point (corr.C12corr.view_mismatch)" if differ else
